@@ -10,6 +10,7 @@ def run(ctx: Ctx) -> None:
     t2_rot.run_homogeneous(ctx)
     t2_rot.run_quaternion(ctx)
     t2_rot.run_quaternion_log(ctx)
+    t2_rot.run_angle_axis(ctx)
     t2_rot.run_accessors(ctx)
     ctx.floor("T8.accessors", 20)
     ctx.floor("T2.euler-matrix", 49)
@@ -17,6 +18,7 @@ def run(ctx: Ctx) -> None:
     ctx.floor("T6.compose", 100)
     ctx.floor("T6.apply", 30)
     ctx.floor("T7.quat-log-exp", 6)
+    ctx.floor("T7.angle-axis", 5)
     ctx.floor("T7.matrix-to-quat", 4)
 
 
